@@ -272,7 +272,12 @@ class Runner(IOOpsMixin):
 
     def _attempt(self, client, i, op, attempt, faults, tracer=None, in_segment=False):
         kind = op["op"]
-        os.chdir(self._cwd_of(client))
+        # the driver changes directory like a user script would: only when IT wants to be somewhere else than where it
+        # last went -- it does not look at the process cwd, so a chdir leaked by cij stays visible to later operations
+        want = self._cwd_of(client)
+        if getattr(self, "driver_cwd", None) != want:
+            os.chdir(want)
+            self.driver_cwd = want
         before = S.snapshot_tree(self.root) if ("O-frame" in self.oracles and not in_segment) else None
         self.seams.begin_op(client, i, attempt, faults)
         self.stdout.start()
